@@ -338,26 +338,28 @@ func verifRoundTripMetrics(p *Producer, c *Consumer, md pmetric.Metrics, tag str
 	if err != nil {
 		return
 	}
-	out, err := c.MetricsFrom(bar)
-	rt.Assert(err == nil, tag+".decode_ok")
-	if err != nil {
-		return
-	}
-	if orig.MetricCount() == 0 {
-		return
-	}
-	rt.Assert(len(out) == 1, tag+".one_result")
-	if len(out) != 1 {
-		return
-	}
-	// these harnesses use a single resource/scope and metrics with distinct concrete first name bytes are
-	// not needed: one metric per batch
-	rt.Assert(out[0].MetricCount() == orig.MetricCount(), tag+".metric_count")
-	if out[0].MetricCount() == 1 && orig.MetricCount() == 1 {
-		om := orig.ResourceMetrics().At(0).ScopeMetrics().At(0).Metrics().At(0)
-		dm := out[0].ResourceMetrics().At(0).ScopeMetrics().At(0).Metrics().At(0)
-		verifMetricEquiv(om, dm, tag)
-	}
+	verifDecodeStep(func() {
+		out, err := c.MetricsFrom(bar)
+		rt.Assert(err == nil, tag+".decode_ok")
+		if err != nil {
+			return
+		}
+		if orig.MetricCount() == 0 {
+			return
+		}
+		rt.Assert(len(out) == 1, tag+".one_result")
+		if len(out) != 1 {
+			return
+		}
+		// these harnesses use a single resource/scope and metrics with distinct concrete first name bytes are
+		// not needed: one metric per batch
+		rt.Assert(out[0].MetricCount() == orig.MetricCount(), tag+".metric_count")
+		if out[0].MetricCount() == 1 && orig.MetricCount() == 1 {
+			om := orig.ResourceMetrics().At(0).ScopeMetrics().At(0).Metrics().At(0)
+			dm := out[0].ResourceMetrics().At(0).ScopeMetrics().At(0).Metrics().At(0)
+			verifMetricEquiv(om, dm, tag)
+		}
+	})
 }
 
 // VerifHarness_C03_rt: one metric of symbolic type per batch (every type incl. empty) with POINTS fully
